@@ -24,13 +24,18 @@
    clientHelloMsg.sctEnabled / unknownExtensions, sessionState.usedOldKey) are not part of
    the abstract value.
 
-   Inside TLC (TLSWireCheck.tla): PSeq(LSeq(v)) = v for every generated value, and which
-   message types are PREFIX-FREE at the grammar level (no strict prefix of a valid body
-   is a valid body).  The statement's "message types whose encoding has no optional tail"
-   is read as exactly that; ClientHello/ServerHello (optional extension block) and the
-   opaque-bodied messages (ServerKeyExchange, ClientKeyExchange, Finished: any prefix of
-   an opaque body is again an opaque body) are not prefix-free, so the truncation claim
-   is not applied to them.                                                              *)
+   Inside TLC (TLSWireCheck.tla): PSeq(LSeq(v)) = v for every generated value, and the truncation
+   clause.  "Message types whose encoding has no optional tail": the encoding of a handshake
+   message is  msg_type(1) + uint24 length + body  and the header's length is authoritative for the
+   body, so a strict prefix of a valid encoding always has fewer body bytes than its own header
+   announces.  A type HAS an optional tail iff its grammar ends in an extension block that may be
+   omitted altogether (ClientHello, ServerHello: "optionally followed by extension data" - both
+   the code and crypto/tls's own test treat a hello cut in front of the extensions as acceptable);
+   every other type - including the ones whose body is one opaque field (ServerKeyExchange,
+   ClientKeyExchange, Finished), for which only the header says where the body ends - has none, and
+   no strict prefix of a valid encoding may be accepted.  TLC checks on the specification that
+   Parse (which enforces the header length) rejects every strict prefix for those types, and that
+   for the two hellos a valid body really has a strict prefix that is a valid body.               *)
 EXTENDS Integers, Sequences, FiniteSets, TLC
 
 ----------------------------------------------------------------------------
@@ -412,6 +417,11 @@ Valid(t, v) ==
     [] t = "sessionStateTLS13" ->
          (v.certificate.ocsp # <<>> \/ v.certificate.scts # <<>>) => v.certificate.certs # <<>>
     [] OTHER -> TRUE
+
+(* the optional tail: an extension block that is omitted altogether when empty, at the very end *)
+HasOptionalTail(t) == LET g == Grammar(t) IN Len(g) > 0 /\ g[Len(g)].k = "exts" /\ g[Len(g)].n = 1
+(* the body is one opaque field to the end of the message: only the header delimits it *)
+OpaqueBody(t) == LET g == Grammar(t) IN Len(g) > 0 /\ g[Len(g)].k = "rest"
 
 (* Grammar-level prefix-freeness of a set of bodies: no strict prefix of a valid body is
    itself a valid body.                                                                *)
